@@ -91,7 +91,8 @@ def bounds_text(tier):
     return ('(a) merge topology (two sources into a capacity-1 buffer) and fan-out (two equal processors), 2-3 parts, symbolic cycle '
             'times, run twice with the same symbolic weights and a symbolic asset-id offset; (b) the same models with a symbolic split '
             'point a of the horizon; (c) simulate_multiple_times with n in {' + ('2,3' if tier == 'quick' else '1,2,3') + '} and '
-            'max_processes in {0,1,2,None} under the synchronous executor stub')
+            'max_processes in {0,1,2,None} under the synchronous executor stub; every replayed sample path of (a) also runs the model twice with the '
+            'real random module seeded identically')
 
 
 def required_goals(tier):
@@ -177,6 +178,28 @@ def _run_model(ctx, spec, args, horizons, hash_order=None):
     return world
 
 
+def _seeded_twice(ctx, spec, args):
+    """Concrete runs only (sample paths and counterexamples replayed on CPython): the same model, with the solver-chosen
+    parameters of this path, is run twice with the *real* random module seeded identically before each run - the property's
+    own wording.  State that survives from one run to the next (anything but the seed) must not change the results."""
+    import random as real_random
+    import simprocesd.model.simulation as sim
+    from engine import stubs
+    saved = sim.random
+    sim.random = real_random
+    try:
+        for seed in range(12):      # a dozen seeds: a tie-break that goes the same way by luck under one seed will not under all
+            snaps = []
+            for _ in range(2):
+                real_random.seed(seed)
+                stubs.reset_globals()
+                snaps.append(_snapshot(_run_model(ctx, spec, args, [10 ** 7], hash_order='asc')))
+            _compare(ctx, snaps[0], snaps[1], 0, 'two runs of the same model with the same random seed differ')
+    finally:
+        sim.random = saved
+    ctx.goal('seeded_runs_matched')
+
+
 def run(shape, args, ctx):
     mode = shape['mode']
     if mode == 'multi':
@@ -207,6 +230,8 @@ def run(shape, args, ctx):
                     for y in other:
                         if x is not y:
                             ctx.goal_if('tie_break_decided_outcome', z(x[0]) == z(y[0]))
+        if not ctx.symbolic:
+            _seeded_twice(ctx, spec, args)
         return
     # split
     base = ctx.rng
